@@ -308,9 +308,32 @@ for mn in %r:
         if any(p.default is inspect.Parameter.empty and p.kind not in (p.VAR_POSITIONAL, p.VAR_KEYWORD) for p in params):
             continue
         try:
-            cls()
+            obj = cls()
         except Exception as e:
             bad.append("%%s.%%s(): %%s: %%s" %% (mn, name, type(e).__name__, e))
+            continue
+        # a default-constructed record is a value of its type: the generated binary serializer must be able to write it and read it back
+        bmod = sys.modules.get(mn[:-len("types")] + "binary")
+        ser = getattr(bmod, name + "Serializer", None) if bmod is not None else None
+        if ser is None:
+            continue
+        try:
+            if any(p.default is inspect.Parameter.empty for p in list(inspect.signature(ser.__init__).parameters.values())[1:]):
+                continue        # generic record: its serializer needs the type arguments' serializers
+        except (TypeError, ValueError):
+            continue
+        try:
+            import io
+            _b = sys.modules[mn[:-len("types")] + "_binary"]
+            buf = io.BytesIO()
+            out = _b.CodedOutputStream(buf)
+            ser().write(out, obj)
+            out.flush()
+            back = ser().read(_b.CodedInputStream(io.BytesIO(buf.getvalue())))
+            if not (back == obj):
+                bad.append("%%s.%%s(): the default instance does not survive its own binary serializer: wrote %%r, read %%r" %% (mn, name, obj, back))
+        except Exception as e:
+            bad.append("%%s.%%s(): the default instance cannot be written with %%sSerializer: %%s: %%s" %% (mn, name, name, type(e).__name__, e))
 if bad:
     print(" ; ".join(bad)[:600])
     sys.exit(1)
